@@ -50,6 +50,10 @@ def routes(tokens, ue):
     out["from_parts(str)"] = lambda: JSONPointer.from_parts(list(tokens), unicode_escape=ue)
     if any(rp.CANON_INDEX.match(t) for t in tokens):
         out["from_parts(int)"] = lambda: JSONPointer.from_parts([int(t) if rp.CANON_INDEX.match(t) else t for t in tokens], unicode_escape=ue)
+        ints = [int(t) if rp.CANON_INDEX.match(t) else t for t in tokens]
+        out["from_parts(iter with ints)"] = lambda: JSONPointer.from_parts(iter(ints), unicode_escape=ue)
+        out["from_parts(generator with ints)"] = lambda: JSONPointer.from_parts((x for x in ints), unicode_escape=ue)
+        out["from_parts(reversed with ints)"] = lambda: JSONPointer.from_parts(reversed(ints[::-1]), unicode_escape=ue)
     if tokens and all(t == t.lstrip() for t in tokens):
         def joined():
             p = JSONPointer("", unicode_escape=ue)
